@@ -701,16 +701,18 @@ def rule_name_fallback_respects_kind(repo: Repo, rep: Report, rule: str = "R2.11
                                     if v_ is not None and norm(v_).replace('"', "'") in (f"getattr({tgt}, 'type', None)", f"{tgt}.type"):
                                         env.setdefault(nm_, tt_)
                             taken = True
+                            n_eval = 0
                             for g, pol in gs:
                                 gi = L.inline(g.ast, depth=6, stop=stop)
                                 txt = norm(gi)
                                 if not ("type" in txt and tgt in txt):
                                     continue  # guards that do not compare the two kinds (registry membership, earlier dispatch) are assumed to hold
                                 val = bool(evaluate(gi, env))
+                                n_eval += 1
                                 if val != pol:
                                     taken = False
                                     break
-                            if taken:
+                            if taken and n_eval:  # (no guard compares the kinds here: the decision is made elsewhere, e.g. by putting the schema back)
                                 leak = (st_, tt_)
                                 raise StopIteration
                 except StopIteration:
